@@ -1338,7 +1338,9 @@ func Generate(r *rng.R, name string, cfg Config) *Package {
 	g := &gen{r: r, cfg: cfg, pkg: &Package{Name: name}}
 	p := g.pkg
 	if cfg.Consts {
-		n := 1 + r.Intn(2)
+		n := 1 + r.Intn(3)
+		block := n >= 2 && r.Intn(2) == 0 // declared together in one const ( ... ) block
+		var blockDecl Decl
 		for i := 0; i < n; i++ {
 			c := &ConstDecl{Name: fmt.Sprintf("K%d", i), T: TU64, Val: uint64(r.Intn(100))}
 			c.Expr = fmt.Sprintf("%d", c.Val)
@@ -1347,11 +1349,19 @@ func Generate(r *rng.R, name string, cfg Config) *Package {
 				c.Deps = []string{fmt.Sprintf("K%d", i-1)}
 				c.Val += g.consts[i-1].Val
 			}
-			if len(cfg.Comments) > 0 && r.Intn(2) == 0 {
+			if len(cfg.Comments) > 0 && r.Intn(2) == 0 && !block {
 				c.Doc = rng.Pick(r, cfg.Comments)
 			}
 			g.consts = append(g.consts, c)
-			p.Decls = append(p.Decls, Decl{Kind: "const", C: c})
+			if block {
+				blockDecl.Kind = "constblock"
+				blockDecl.CB = append(blockDecl.CB, c)
+			} else {
+				p.Decls = append(p.Decls, Decl{Kind: "const", C: c})
+			}
+		}
+		if block {
+			p.Decls = append(p.Decls, blockDecl)
 		}
 	}
 	if cfg.Structs {
